@@ -301,9 +301,90 @@ def rule_u5(F):
     return r
 
 
+SPAN_CONST_OK = {}  # (function suffix, constant) -> reason; no reviewed site on the reference tree
+
+
+def _arith(b, defs, place, depth=0):
+    """Arithmetic expression behind a usize place: ('add'|'sub', l, r) / ('const', v) / ('leaf', description)."""
+    if depth > 12:
+        return ("leaf", "?")
+    l = place[0]
+    ds = defs.whole_defs(l)
+    if len(ds) != 1:
+        return ("leaf", "local%d" % l)
+    d = ds[0]
+    if d[2] == "call":
+        return ("leaf", "call:" + hir.last(mir.callee_def(d[3])))
+    if d[2] != "assign":
+        return ("leaf", "local%d" % l)
+    rv = d[3]["rv"]
+
+    def of(o):
+        c = mir.op_const(o)
+        if c is not None:
+            return ("const", c.get("v"))
+        if mir.is_place_op(o):
+            return _arith(b, defs, o[1], depth + 1)
+        return ("leaf", "?")
+    if rv["k"] == "use":
+        return of(rv["o"])
+    if rv["k"] == "bin":
+        op = rv["op"].replace("WithOverflow", "").replace("Unchecked", "").lower()
+        if op in ("add", "sub"):
+            return (op, of(rv["a"]), of(rv["b"]))
+    return ("leaf", rv["k"])
+
+
+def rule_u6(F):
+    r = RuleResult("C06.U6", "token spans end on a position computed from lengths: a constant number of bytes added to a position is a reviewed site", floor=2)
+    for b in F.bodies_in(["src/parser/lexer.rs"]):
+        if not b.mir or "::tests::" in b.path:
+            continue
+        defs = None
+        for bi, st in mir.agg_sites(b, "std::ops::Range"):
+            ops = st["rv"]["ops"]
+            if len(ops) != 2 or not mir.is_place_op(ops[1]) or b.mir["locals"][ops[1][1][0]]["ty"] != "usize":
+                continue
+            # only ranges that leave the function as (part of) its result are spans
+            flow = {st["p"][0]}
+            ch = True
+            while ch:
+                ch = False
+                for blk in b.blocks:
+                    for s2 in blk["stmts"]:
+                        if s2["k"] != "assign" or s2["p"][0] in flow:
+                            continue
+                        rv2 = s2["rv"]
+                        srcs = [o for o in rv2.get("ops", [])] + [rv2[k] for k in ("o",) if k in rv2]
+                        if any(mir.is_place_op(o) and o[1][0] in flow for o in srcs):
+                            flow.add(s2["p"][0])
+                            ch = True
+            if 0 not in flow:
+                continue
+            defs = defs or mir.Defs(b)
+            e = _arith(b, defs, ops[1][1])
+            consts = []
+
+            def walk(x):
+                if x[0] in ("add", "sub"):
+                    for y in x[1:]:
+                        if y[0] == "const" and y[1]:
+                            consts.append(y[1])
+                        walk(y)
+            walk(e)
+            r.inst("%s span line-free #%d" % (b.path, bi), {"fn": b.path, "line": st["line"], "end": str(e)[:160]})
+            for v in consts:
+                if any(b.path.endswith(k[0]) and k[1] == v for k in SPAN_CONST_OK):
+                    continue
+                r.bad(b.path, "span end = position + %s" % v, relfile(b.file), st["line"],
+                      "the end of a token span is a byte position plus the constant %s: if the character there is longer than that the span ends inside it "
+                      "and rendering the diagnostic slices the source mid code point" % v)
+    return r
+
+
 def rules(ctx):
     F = ctx["F"]
-    return [rule_u1(F), rule_u2(F), rule_u3(F), rule_u3b(F), rule_u4(F), rule_u5(F)]
+    return [rule_u1(F), rule_u2(F), rule_u3(F), rule_u3b(F), rule_u4(F), rule_u5(F), rule_u6(F)]
 
 
 def canary(C):
